@@ -34,7 +34,7 @@ func uniqueBy(d *dataTreeNavigator, context Context, expressionNode *ExpressionN
 				return Context{}, err
 			}
 
-			keyValue, err := getUniqueKeyValue(rhs)
+			keyValue, err := getUniqueKeyValue(withoutPresentation(rhs))
 			if err != nil {
 				return Context{}, err
 			}
@@ -70,4 +70,29 @@ func getUniqueKeyValue(rhs Context) (string, error) {
 		}
 	}
 	return keyValue, err
+}
+
+// a collection used as a key stands for its value: two collections that differ only in
+// style (flow / block, quoting) or comments are the same key
+func withoutPresentation(rhs Context) Context {
+	if rhs.MatchingNodes.Len() == 0 {
+		return rhs
+	}
+	first := rhs.MatchingNodes.Front().Value.(*CandidateNode)
+	if first.Kind == ScalarNode {
+		return rhs
+	}
+	plain := first.Copy()
+	clearPresentation(plain)
+	return rhs.SingleChildContext(plain)
+}
+
+func clearPresentation(node *CandidateNode) {
+	node.Style = 0
+	node.HeadComment = ""
+	node.LineComment = ""
+	node.FootComment = ""
+	for _, child := range node.Content {
+		clearPresentation(child)
+	}
 }
